@@ -45,6 +45,8 @@ def ev(op, labels, consts, here):
     """value an operand names, given final label offsets and the offset of the item containing it"""
     if 'i' in op:
         return op['i']
+    if 'x' in op:
+        return op['x'][1]          # literal expression text with its (generator-side) value
     if 'r' in op:
         return op['r']
     if 'c' in op:
@@ -54,7 +56,7 @@ def ev(op, labels, consts, here):
     if 'lab' in op:
         return labels[op['lab']]
     if 't' in op:
-        return labels[op['t']] - here
+        return (labels[op['t']] if op['t'] in labels else consts[op['t']]) - here
     if 'off' in op:
         return labels[op['off']] - here
     if 'pos' in op:
@@ -84,6 +86,8 @@ def regno(op, consts):
 def r_op(op):
     if 'i' in op:
         return str(op['i'])
+    if 'x' in op:
+        return op['x'][0]
     if 'r' in op:
         return 'x%d' % op['r']
     if 'c' in op:
